@@ -187,7 +187,7 @@ def _eval_spec(R, E, **kw):
 
 
 FUNCS.append(Func("beat.evaluate", _eval_call, list(S.EVAL_KEYS), {"min_beat_time": [5.0, 5.5]}, build, model,
-                  _eval_spec, {k: "ANY" for k in S.EVAL_KEYS}))
+                  _eval_spec, {k: "SKIP" for k in S.EVAL_KEYS}))
 
 TASK = Task("beat", FUNCS, pair_space, single_space)
 
